@@ -60,8 +60,12 @@ func init() {
 		return sym{in.Terms[0], types.Uint64}
 	}
 	h["vBool"] = func(fr *frame, args []value) value {
-		in := cur.newInput(args[0].(string), "bool", 0, 1)
-		return sym{in.Terms[0], types.Bool}
+		// a boolean input is a byte restricted to {0,1}, so that decisions on it stay inside the
+		// exact finite-domain procedure
+		in := cur.newInput(args[0].(string), "bool", 8, 1)
+		c := cur.ctx
+		cur.addConstraint(c.Cmp(OpUle, in.Terms[0], c.Const(8, 1)))
+		return mkSym(c.Eq(in.Terms[0], c.Const(8, 1)), types.Bool)
 	}
 	h["vInt"] = func(fr *frame, args []value) value {
 		lo, hi := asInt64(args[1]), asInt64(args[2])
